@@ -61,12 +61,6 @@ package modzip
 //@   assumed A-ext filepath.Rel: pure; its error is never one of the walk-control sentinels
 //@   pure
 //@   ensures result1 != filepath.SkipDir && result1 != filepath.SkipAll
-//@ func path/filepath.ToSlash
-//@   assumed A-ext filepath.ToSlash
-//@   pure
-//@ func path/filepath.Base
-//@   assumed A-ext filepath.Base
-//@   pure
 //@ func isVendoredPackage
 //@   assumed A-int: pure string test
 //@   pure
